@@ -990,6 +990,9 @@ func init() {
 			}
 		}
 
+		// round 4c: the context as an object with a history (c16ctx.go)
+		sb.WriteString(c16EmitCtx(c))
+
 		for _, fn := range []string{"escape", "isNumeric", "JsonObjectBuilder.WriteInferred", "JsonObjectBuilder.writeKey",
 			"JsonObjectBuilder.WriteString", "JsonObjectBuilder.WriteLiteral"} {
 			c.Fingerprint(mj, fn)
